@@ -110,3 +110,16 @@ pub const fn get_bishop_moves_index(square: Square, blockers: BitBoard) -> usize
 }
 
 pub const SLIDING_MOVE_TABLE_SIZE: usize = 87988;
+
+/// Verification hook: the index parameters of a square
+/// as `(neg_mask, magic, offset, index_bits)`.
+#[cfg(cozy_chess_verif)]
+pub fn verif_index_entry(rook: bool, square: Square) -> (u64, u64, u32, usize) {
+    let (magics, bits) = if rook {
+        (ROOK_MAGICS, ROOK_INDEX_BITS)
+    } else {
+        (BISHOP_MAGICS, BISHOP_INDEX_BITS)
+    };
+    let entry = &magics[square as usize];
+    (entry.neg_mask.0, entry.magic, entry.offset, bits)
+}
